@@ -156,6 +156,7 @@ type harness struct {
 	im    *Impl
 	cf    *CaseFile
 	V, N  *node
+	W     *node // a verifying node whose ID contains "unix"
 	M     *Daemon
 	fatal string
 	mu    sync.Mutex
@@ -242,6 +243,31 @@ func setup(c *Ctx, im *Impl, cf *CaseFile) *harness {
 - work-command:
     worktype: psleep
 %s`, N.d.DataDir(), N.d.Sock, N.tcp, nListen, sleeper)
+	// a verifying node whose ID contains the letters "unix": the exemption from verification belongs
+	// to the unix-socket TRANSPORT, not to any text in an address (a mesh stream's network name is
+	// netceptor-<node ID>)
+	W := &node{d: mk(unixNodeID), keyOK: true, tcp: freePort(), pool: map[string][]*tunit{}}
+	wListen := freePort()
+	W.d.Config = fmt.Sprintf(`---
+- node:
+    id: %s
+    datadir: %s
+- log-level: info
+- work-verification:
+    publickey: %s
+- control-service:
+    service: control
+    filename: %s
+    tcplisten: 127.0.0.1:%d
+- tcp-listener:
+    port: %d
+    bindaddr: 127.0.0.1
+- work-command:
+    worktype: vsleep
+    verifysignature: true
+%s- work-command:
+    worktype: psleep
+%s`, unixNodeID, W.d.DataDir(), pubF, W.d.Sock, W.tcp, wListen, sleeper, sleeper)
 	M := mk("c15m")
 	M.Config = fmt.Sprintf(`---
 - node:
@@ -258,19 +284,23 @@ func setup(c *Ctx, im *Impl, cf *CaseFile) *harness {
     address: 127.0.0.1:%d
 - tcp-peer:
     address: 127.0.0.1:%d
-`, M.DataDir(), privF, M.Sock, vListen, nListen)
+- tcp-peer:
+    address: 127.0.0.1:%d
+`, M.DataDir(), privF, M.Sock, vListen, nListen, wListen)
 	Must(V.d.Start())
 	Must(N.d.Start())
+	Must(W.d.Start())
 	Must(M.Start())
+	W.tokens = makeTokens(unixNodeID, key, other)
 	V.tokens = makeTokens("c15v", key, other)
 	N.tokens = makeTokens("c15n", key, other)
 	V.gen, N.gen = newTokenGen("c15v", key, other), newTokenGen("c15n", key, other)
 	otherF := filepath.Join(dir, "other.key")
 	Must(certificates.SaveToPEMFile(otherF, []interface{}{other}, osw))
-	h := &harness{c: c, im: im, cf: cf, V: V, N: N, M: M, pubF: pubF, privF: privF, dir: dir, mkDaemon: mk, vListen: vListen, otherF: otherF}
+	h := &harness{c: c, im: im, cf: cf, V: V, N: N, W: W, M: M, pubF: pubF, privF: privF, dir: dir, mkDaemon: mk, vListen: vListen, otherF: otherF}
 	// wait for the mesh routes
 	deadline := time.Now().Add(15 * time.Second)
-	for _, target := range []string{"c15v", "c15n"} {
+	for _, target := range []string{"c15v", "c15n", unixNodeID} {
 		for {
 			l, err := oneShotUnix(M.Sock, `{"command":"ping","target":"`+target+`"}`)
 			if err == nil && strings.Contains(l, `"Success":true`) {
@@ -289,6 +319,7 @@ func (h *harness) teardown() {
 	dir := filepath.Dir(h.V.d.Dir)
 	h.V.d.Kill()
 	h.N.d.Kill()
+	h.W.d.Kill()
 	h.M.Kill()
 	for _, s := range h.signers {
 		if s.d != h.M {
@@ -528,9 +559,12 @@ type caseSpec struct {
 }
 
 // the registered command work types of the two nodes: name -> verifysignature
+const unixNodeID = "unix-worker-1"
+
 var registryOf = map[string]map[string]bool{
-	"c15v": {"vsleep": true, "psleep": false, "signedwork": true, "plainkind": false},
-	"c15n": {"psleep": false},
+	unixNodeID: {"vsleep": true, "psleep": false},
+	"c15v":     {"vsleep": true, "psleep": false, "signedwork": true, "plainkind": false},
+	"c15n":     {"psleep": false},
 }
 
 func coqRegistry(node string) string {
@@ -1039,6 +1073,17 @@ func runC15(c *Ctx) {
 			im.Violate(fmt.Sprintf("the node died on a %s with signature %s (%q)", cmds[i%len(cmds)], rs.name, clipTok(rs.tok)), "daemon-crashed:raw-signature", map[string]string{"signature": clipTok(rs.tok), "command": cmds[i%len(cmds)], "connection": conn})
 			break
 		}
+	}
+	// node IDs: the same slice of the matrix on the verifying node called unix-worker-1, over a mesh
+	// stream, over TCP and (the only exempt transport) over its real unix socket
+	for _, cmd := range cmds {
+		for _, conn := range []string{"mesh", "tcp"} {
+			for _, tn := range []string{"absent", "valid-rs512", "other-key", "expired"} {
+				mk(h.W, cmd, conn, "verify", tokByName(h.W, tn))
+			}
+		}
+		mk(h.W, cmd, "unix", "verify", tokByName(h.W, "absent"))
+		mk(h.W, cmd, "mesh", "plain", tokByName(h.W, "valid-rs512"))
 	}
 	// the signing side end to end, the key file at verification time, configurations that must not start
 	phase := func(name string, f func()) {
